@@ -500,6 +500,23 @@ def run(ctx, spec):
             h1 = [(-v, t) for v, t in h1]
             h2 = [(-v, t) for v, t in h2]
         check_combine(ctx, DP, h1, h2, merge, retention, rng.choice(["sum", "sum_plus_tag", "diff"]))
+    # float candidates that differ by a rounding error only (0.1 + 0.2 vs 0.3): the optimum is the exact minimum / maximum
+    fpool = [0.1 + 0.2, 0.3, 0.7 + 0.1, 0.8, 0.1 * 3, 0.6 / 2, 1.1 + 2.2, 3.3, 0.30000000000000004, 0.29999999999999993, 1e-12, 0.0, 2.5, 0.5]
+    for k in range(300 if ctx.tier == "quick" else 5000):
+        L = rng.randint(2, 6)
+        history = [(rng.choice(fpool), rng.choice([None, "a", "b", "c"])) for _ in range(L)]
+        sizes = []
+        rem = L
+        while rem:
+            s = rng.randint(1, rem)
+            sizes.append(s)
+            rem -= s
+        merge, retention = policies[k % len(policies)]
+        ctx.count("mon.float_histories")
+        check_history(ctx, DP, history, tuple(sizes), merge, retention, rng.choice(CONTAINERS))
+        if k % 3 == 0:
+            h2 = [(rng.choice(fpool), rng.choice(["x", "y"])) for _ in range(rng.randint(1, 3))]
+            check_combine(ctx, DP, [(v, t or "n") for v, t in history[:3]], h2, merge, retention, "sum")
     # random long histories with wider values
     for _ in range(spec["nrand"]):
         L = rng.randint(6, 40)
